@@ -1,6 +1,7 @@
 package main
 
 import (
+	"bytes"
 	"flag"
 	"fmt"
 	"os"
@@ -281,6 +282,152 @@ func realObserve(words []uint64) (obs map[string]string, problem string) {
 	return obs, ""
 }
 
+// marshalTokens turns marshalled text into the token sequence IterMachine!Marshal produces.
+func marshalTokens(b []byte, err error) string {
+	if err != nil {
+		return "<ERR>"
+	}
+	var out []string
+	for i := 0; i < len(b); {
+		c := b[i]
+		switch {
+		case c == '{' || c == '}' || c == '[' || c == ']' || c == ',' || c == ':':
+			out = append(out, string(c))
+			i++
+		case c == '\n':
+			out = append(out, "nl")
+			i++
+		case c == '"':
+			j := i + 1
+			for j < len(b) && b[j] != '"' {
+				if b[j] == '\\' {
+					j++
+				}
+				j++
+			}
+			out = append(out, "s")
+			i = j + 1
+		case bytes.HasPrefix(b[i:], []byte("null")):
+			out = append(out, "n")
+			i += 4
+		case bytes.HasPrefix(b[i:], []byte("true")):
+			out = append(out, "t")
+			i += 4
+		case bytes.HasPrefix(b[i:], []byte("false")):
+			out = append(out, "f")
+			i += 5
+		case c == '-' || (c >= '0' && c <= '9'):
+			j := i
+			for j < len(b) && strings.IndexByte("-+.eE0123456789", b[j]) >= 0 {
+				j++
+			}
+			out = append(out, "#")
+			i = j
+		default:
+			out = append(out, fmt.Sprintf("?%02x", c))
+			i++
+		}
+	}
+	return seq(append(out, "ok"))
+}
+
+// realMarshalObserve marshals from every iterator state the walks of IterMachine!ObserveMarshal pass through.
+func realMarshalObserve(words []uint64) (obs map[string][]string, problem string) {
+	defer func() {
+		if r := recover(); r != nil {
+			problem = fmt.Sprintf("PANIC: %v", r)
+		}
+	}()
+	obs = map[string][]string{}
+	mk := func() *simdjson.ParsedJson {
+		return &simdjson.ParsedJson{Tape: append([]uint64{}, words...), Strings: &simdjson.TStrings{B: []byte{}}, Message: []byte{}}
+	}
+	m := func(it simdjson.Iter) string { // by value: the caller's iterator is left where it is
+		b, err := it.MarshalJSON()
+		return marshalTokens(b, err)
+	}
+	n := len(words) + 2
+	{
+		pj := mk()
+		obs["mnew"] = []string{m(pj.Iter())}
+	}
+	{
+		pj := mk()
+		it := pj.Iter()
+		obs["madv"] = []string{}
+		for k := 0; k < n && it.Advance() != simdjson.TypeNone; k++ {
+			obs["madv"] = append(obs["madv"], m(it))
+		}
+	}
+	{
+		pj := mk()
+		it := pj.Iter()
+		obs["minto"] = []string{}
+		for k := 0; k < n && it.AdvanceInto() != simdjson.TagEnd; k++ {
+			obs["minto"] = append(obs["minto"], m(it))
+		}
+	}
+	{
+		pj := mk()
+		it := pj.Iter()
+		var dst simdjson.Iter
+		obs["miter"] = []string{}
+		for k := 0; k < n; k++ {
+			t, err := it.AdvanceIter(&dst)
+			if err != nil || t == simdjson.TypeNone {
+				break
+			}
+			obs["miter"] = append(obs["miter"], m(dst))
+		}
+	}
+	{
+		pj := mk()
+		it := pj.Iter()
+		obs["mroot"] = []string{}
+		if it.Advance() == simdjson.TypeRoot {
+			if _, ri, err := it.Root(nil); err == nil {
+				obs["mroot"] = append(obs["mroot"], m(*ri))
+			}
+		}
+	}
+	{
+		pj := mk()
+		it := pj.Iter()
+		obs["mdeep"] = []string{}
+		for k := 0; k < n; k++ {
+			t := it.AdvanceInto()
+			if t == simdjson.TagEnd {
+				break
+			}
+			switch t {
+			case simdjson.TagObjectStart:
+				obj, oerr := it.Object(nil)
+				if oerr != nil {
+					continue
+				}
+				var tmp simdjson.Iter
+				for j := 0; j < n; j++ {
+					_, et, nerr := obj.NextElementBytes(&tmp)
+					if nerr != nil || et == simdjson.TypeNone {
+						break
+					}
+					obs["mdeep"] = append(obs["mdeep"], m(tmp))
+				}
+			case simdjson.TagArrayStart:
+				arr, aerr := it.Array(nil)
+				if aerr != nil {
+					continue
+				}
+				ai := arr.Iter()
+				for j := 0; j < n && ai.Advance() != simdjson.TypeNone; j++ {
+					obs["mdeep"] = append(obs["mdeep"], m(ai))
+				}
+			}
+		}
+	}
+	return obs, ""
+}
+
 func giter(args []string) error {
 	fs := flag.NewFlagSet("g-iter", flag.ExitOnError)
 	dump := fs.String("dump", "", "TLC dump")
@@ -345,6 +492,54 @@ func giter(args []string) error {
 					rep.Count("navigation_on_refused_tapes_not_as_specified", 1)
 				}
 				return
+			}
+		}
+		// MarshalJSON from every iterator state (IterMachine!Marshal)
+		if mobs, ok := st["mobs"]; ok {
+			mgot, mproblem := realMarshalObserve(words)
+			if mproblem != "" {
+				rep.Count("marshal_panics_on_raw_tapes_not_as_specified", 1)
+				fmt.Fprintln(os.Stderr, "marshalling panicked on raw tape", text, ":", mproblem)
+				return
+			}
+			for _, fld := range []string{"mnew", "madv", "minto", "miter", "mroot", "mdeep"} {
+				var want []string
+				if fld == "mnew" {
+					want = []string{fmtSpec(mobs.Field(fld))}
+				} else {
+					for _, e := range mobs.Field(fld).E {
+						want = append(want, fmtSpec(e))
+					}
+				}
+				got := mgot[fld]
+				bad := ""
+				if len(got) != len(want) {
+					bad = fmt.Sprintf("%d iterator states marshalled, the machine passes through %d", len(got), len(want))
+				}
+				for j := 0; bad == "" && j < len(want); j++ {
+					rep.Count("marshal_calls", 1)
+					// numbers written back to back (values side by side outside any container) read as one run of digits
+					for strings.Contains(want[j], "#,#") {
+						want[j] = strings.ReplaceAll(want[j], "#,#", "#")
+					}
+					switch {
+					case got[j] == want[j]:
+					case want[j] == "<ERR>":
+						// the machine refuses; whether the text the code returns instead is right is judged on real documents (g-edit)
+						rep.Count("marshal_answers_where_the_machine_refuses_not_as_specified", 1)
+					default:
+						bad = fmt.Sprintf("state %d: %s", j, got[j])
+					}
+				}
+				if bad != "" {
+					if clean {
+						rep.Add(run.Mismatch{Property: *prop, Sig: "iter:" + fld + ":" + text, Text: text, Want: fld + " = " + seq(want), Got: bad,
+							Detail: "MarshalJSON from an iterator state on a tape that every call accepts differs from IterMachine!Marshal"})
+					} else {
+						rep.Count("marshal_on_refused_tapes_not_as_specified", 1)
+					}
+					return
+				}
 			}
 		}
 		if clean {
